@@ -12,7 +12,7 @@
    (search against the reference construction mcb_ref / a Python Horton implementation). *)
 From Coq Require Import ZArith List Bool Permutation.
 From Model Require Import PyBase Graph Rings.
-From Proofs Require Import RingsProofs.
+From Proofs Require Import RingsProofs RingsMcb.
 Import ListNotations.
 Open Scope Z_scope.
 
@@ -38,6 +38,43 @@ Theorem C06_basis_checker_sound : forall g rs, is_cycle_basis g rs = true ->
     Z.of_nat (length (edges g)) - Z.of_nat (length g) + Z.of_nat (length (components_order g (keys g))).
 Proof. exact basis_checker_sound. Qed.
 Print Assumptions C06_basis_checker_sound.
+
+(* ... and the checker is COMPLETE: it accepts every ring list with these four properties, so a rejection of an sssr
+   output is a genuine defect of that output, never a false alarm of the checker *)
+Theorem C06_basis_checker_complete : forall g rs,
+  gwf g -> Forall (is_cycle g) rs ->
+  (forall sel, length sel = length rs -> existsb (fun s => s) sel = true ->
+     exists e, In e (edges g) /\ sel_parity sel rs e = true) ->
+  Z.of_nat (length rs) =
+    Z.of_nat (length (edges g)) - Z.of_nat (length g) + Z.of_nat (length (components_order g (keys g))) ->
+  is_cycle_basis g rs = true.
+Proof. exact basis_checker_complete. Qed.
+Print Assumptions C06_basis_checker_complete.
+
+(* a rejected list of vectors has a non-empty selection whose sum vanishes at every coordinate *)
+Theorem C06_independent_b_complete : forall vs, independent_b vs = false ->
+  exists sel, length sel = length vs /\ existsb (fun s => s) sel = true /\ forall i, comb_bit sel vs i = false.
+Proof. exact independent_b_complete. Qed.
+Print Assumptions C06_independent_b_complete.
+
+(* ---- (S) the reference construction mcb_ref (Horton candidates + greedy elimination) ---- *)
+
+(* for every well-formed graph: each ring of mcb_ref g is a simple cycle of g, the rings are linearly independent
+   (accepted by the elimination of the checker) and there are at most bonds - atoms + components of them *)
+Theorem C06_mcb_ref_sound : forall g, gwf g ->
+  Forall (is_cycle g) (mcb_ref g) /\
+  independent_b (map (ring_vec g) (mcb_ref g)) = true /\
+  (length (mcb_ref g) <= Z.to_nat (cyclomatic g))%nat.
+Proof. exact mcb_ref_sound. Qed.
+Print Assumptions C06_mcb_ref_sound.
+
+(* mcb_ref_is_basis, PARTIAL: missing is that the Horton candidates span the cycle space, i.e. that the count is always
+   reached (hypothesis N); the check evaluates is_cycle_basis g (mcb_ref g) on every molecule it sends to mcb_ref.
+   Minimality of mcb_ref (greedy on the cycle matroid + Horton completeness) is not proved. *)
+Theorem C06_mcb_ref_is_basis_partial : forall g, gwf g -> Z.of_nat (length (mcb_ref g)) = cyclomatic g ->
+  is_cycle_basis g (mcb_ref g) = true.
+Proof. exact mcb_ref_is_basis_partial. Qed.
+Print Assumptions C06_mcb_ref_is_basis_partial.
 
 (* the incidence vectors lose nothing: every bond of a cycle of g is one of the listed bonds of g *)
 Theorem C06_ring_edges_in_graph : forall g r, gwf g -> is_cycle g r ->
@@ -96,6 +133,11 @@ Theorem C06_skin_keeps_cycles : forall g g' c, NoDup (keys g) -> skin_graph g = 
   is_cycle g' c /\ forall v, In v c -> In v (keys g').
 Proof. exact skin_keeps_cycles. Qed.
 Print Assumptions C06_skin_keeps_cycles.
+
+(* ... and it only removes: the pruned graph has EXACTLY the simple cycles of the input *)
+Theorem C06_skin_same_cycles : forall g g' c, NoDup (keys g) -> skin_graph g = Ok g' -> (is_cycle g c <-> is_cycle g' c).
+Proof. exact skin_same_cycles. Qed.
+Print Assumptions C06_skin_same_cycles.
 
 (* what is left has no terminal atom; the loop never runs out of fuel (the model's only artificial error) *)
 Theorem C06_skin_min_degree : forall g g', skin_graph g = Ok g' -> forall n ms, In (n, ms) g' -> (2 <= length ms)%nat.
@@ -178,3 +220,16 @@ Print Assumptions C06_atoms_rings_spec.
 Theorem C06_atoms_rings_key : forall sssr n, In n (keys (atoms_rings sssr)) <-> exists r, In r sssr /\ In n r.
 Proof. exact atoms_rings_key. Qed.
 Print Assumptions C06_atoms_rings_key.
+
+(* ---- (A) aromatic_rings ---- *)
+
+(* when no subscript raises, aromatic_rings is the sub-list (in order) of the sssr rings whose closing bond and every
+   consecutive bond of the spelling has order 4 *)
+Theorem C06_aromatic_rings_spec : forall g sssr l, aromatic_rings g sssr = Ok l -> l = filter (is_arom g) sssr.
+Proof. exact aromatic_rings_spec. Qed.
+Print Assumptions C06_aromatic_rings_spec.
+
+Theorem C06_ring_aromatic_spec : forall g r, ring_aromatic g r = Ok true <->
+  r <> [] /\ bond_ord g (hd 0 r) (last r 0) = Ok 4 /\ forall n m, In (n, m) (combine r (tl r)) -> bond_ord g n m = Ok 4.
+Proof. exact ring_aromatic_spec. Qed.
+Print Assumptions C06_ring_aromatic_spec.
